@@ -48,12 +48,42 @@ CLAUSE → THEOREMS (→ what stays outside)
       `alpha_cv_pvalue_range`, `alpha_ad_accepts`, `pvalue_range_partial`
       → `pvalue_range_statement`: scipy's kstest p-value (alpha type KS) is outside the model (oracle only).
 11. "data outside [0, 1] are rejected by the Anderson-Darling test"
-      `ad_rejects_iff` (NaN included; nothing else is rejected).
+      `ad_rejects_iff` (NaN included; nothing else is rejected), `ad_never_unsorted` (with a correct sort the order
+      check never fires: a rejection of NaN-free data is a range rejection).
+
+ROUND 7 (model: `Model/C10Entry.lean`, lemmas: `Lemmas/C10Entry.lean`) — what moved from "outside" into theorems:
+  sorts      `sortAsc_sortsAscending`, `sortADm_adSorts` (the sorts the model is run with — a merge sort by `≤`, a stable
+             merge sort by the comparator of c_andersondarling.c with NaN equal to everything — meet `SortsAscending` /
+             `ADSorts`), hence `cvm_sortAsc_eq_textbook`, `ad_sortADm_eq_textbook`, `ad_sortADm_rejects_iff` with no sort
+             hypothesis (clauses 9, 11).
+  kind       `pitKind_range`, `pitKind_strictMono_count`: clauses 6, 7 for `pit`'s optional argument kind = rank, weak,
+             strict, mean (scipy percentileofscore re-modelled); `pit_ties_needed`.
+  pit        `pitEntry_rejects_iff`, `pitEntry_range`, `pitEntry_random_defined`, `pitEntry_complete`,
+             `pitEntry_obs_layouts`: the whole entry point (layouts, "obs is not 1D", first dimension, NaN filter, NaN
+             members, both branches): clause 6 for everything `pit` returns, and on complete data `pit` IS
+             `pitRandom` / `pitKind` / `isSudo` forecast by forecast (clauses 6-8).
+  alpha      `alpha_refilter`, `alphaEntry_pvalue_range`, `alphaEntry_ad_accepts`, `alphaEntry_badType` (clause 10 at the
+             entry point: every layout, NaN rows; the second filter inside `pit` is the identity).
+  dscore     `dscoreEntry_range`, `dscoreEntry_rejects_iff`, `dscoreEntry_vec` (a vector of single-member forecasts is a
+             column — fixed defect dscore/documented_layout_raises), `dscore_range_any_argsort` (clause 1 whatever
+             numpy's tie-break of tied observations), `dscoreOf_through_finish`.
+  rounding   `pit_range_rounded`, `pit_mono_rounded`, `sudo_rounded_at_or_below`, `sudo_rounded_above`,
+             `dscore_range_rounded`, `rounded_id`: the RANGE clauses (1, 6), weak monotonicity (7) and the flag at / away
+             from the threshold (8) for every monotone rounding operator that is exact on small integers and
+             half-integers — true of IEEE double precision; strictness in clause 7 stays an exact-field statement.
+  guards     `ensrank_ok_eq_weigel_mason` (0 < eps, eps ≥ 1e-20, m ≥ 1, n ≥ 1 follow from the kernel ACCEPTING the call),
+             `separation_needed`, `stability_needed` (the two remaining hypotheses of clause 5 cannot be dropped; the
+             harness runs the real code at the excluded points), `ensrank_ranks_sum` (no hypothesis at all: the ranks sum
+             to n(n+1)/2 — what is checked at the excluded points).
+  histories  `ensrank_step`, `ensrank_history_free`: `c_hydrodiy_stat.ensrank` on caller-owned buffers as a step function
+             over arbitrary operation lists (accepted calls, calls rejected by the wrapper's assertions or by the kernel —
+             buffers untouched — and the caller scribbling into its buffers): every reply is the reply on fresh buffers.
 -/
 import HydroVerif.Lemmas.C10Unif
 import HydroVerif.Lemmas.C10Sort
 import HydroVerif.Lemmas.C10Table
 import HydroVerif.Lemmas.C10Audit
+import HydroVerif.Lemmas.C10Entry
 
 set_option linter.unusedSectionVars false
 set_option linter.unusedVariables false
@@ -444,6 +474,229 @@ theorem cvm_pvalue_defined (n : ℕ) (stat : α) : ∃ v, cvmPvalue n stat = som
 
 end field
 
+
+/-! ## 7. the sort hypotheses are met by the sorts the model is run with -/
+
+section field2
+variable {α : Type} [Field α] [LinearOrder α] [IsStrictOrderedRing α]
+
+/-- `sortAsc` (the driver's `np.sort`) sorts ascending: `SortsAscending` is not an assumption for it -/
+theorem sortAsc_sortsAscending : SortsAscending (sortAsc : List α → List α) :=
+  fun l => ⟨sortAsc_perm l, sortAsc_sorted l⟩
+
+/-- `sortADm` — a stable merge sort driven by the comparator of c_andersondarling.c, NaN comparing equal to everything —
+meets `ADSorts`: a permutation on every input, the ascending order on NaN-free input -/
+theorem sortADm_adSorts : ADSorts (sortADm : List (Option α) → List (Option α)) :=
+  ⟨fun data => List.mergeSort_perm data _,
+    fun xs => ⟨sortAsc xs, sortADm_map_some xs, sortAsc_perm xs, sortAsc_sorted xs⟩⟩
+
+/-- hence the Cramer-von Mises statistic of the model as it is run equals the textbook formula, no hypothesis left -/
+theorem cvm_sortAsc_eq_textbook (data s : List α) (hperm : s.Perm data) (hsorted : s.Pairwise (· ≤ ·)) :
+    cvmStat sortAsc data = cvmTextbook s :=
+  cvm_eq_textbook sortAsc sortAsc_sortsAscending data s hperm hsorted
+
+/-! ## 8. `percentileofscore` for every value of `pit`'s optional argument `kind` -/
+
+/-- PIT of the non-random branch lies in [0, 1] for `kind` = rank, weak, strict and mean -/
+theorem pitKind_range (k : PctKind) (obs : α) (ens : List α) (hne : ens ≠ []) :
+    0 ≤ pitKind k obs ens ∧ pitKind k obs ens ≤ 1 :=
+  pctFormula_range k _ _ _ (List.length_pos_iff.mpr hne) (filter_lt_le_length obs ens) (List.length_filter_le _ _)
+
+/-- … and increases strictly with the number of members below the observation (same number of ties), whatever `kind` -/
+theorem pitKind_strictMono_count (k : PctKind) (nens left left' ties : ℕ) (hn : 0 < nens) (h : left < left') :
+    pctFormula (α := α) k left (left + ties) nens / 100 < pctFormula (α := α) k left' (left' + ties) nens / 100 := by
+  rw [pctFormula_eq k _ _ nens hn, pctFormula_eq k _ _ nens hn]
+  have hnpos : (0 : α) < 2 * (nens : α) := by
+    have : (0 : α) < (nens : α) := by exact_mod_cast hn
+    linarith
+  apply div_lt_div_of_pos_right _ hnpos
+  exact_mod_cast pctNum_strict k left left' ties h
+
+/-! ## 9. the entry point `metrics.pit` (layouts, filter, NaN members, both branches) -/
+
+/-- `pit` rejects exactly: an observation array with two dimensions left after `squeeze`, a first dimension of `ens`
+different from the number of observations, or no forecast with an observation and a member present -/
+theorem pitEntry_rejects_iff (random : Bool) (kind : PctKind) (eps cst censor : α) (obs ens : ArrIn (Option α))
+    (dobs : List α) (dens : List (List α)) :
+    (∃ e, pitEntry random kind eps cst censor obs ens dobs dens = .error e) ↔
+      ((∃ c rows, obs = .mat c rows ∧ rows.length ≠ 1 ∧ c ≠ 1) ∨
+        ∃ os, normObs obs = .ok os ∧ ((normEns ens).length ≠ os.length ∨ keepRows os (normEns ens) = [])) := by
+  unfold pitEntry checkEnsembleIn
+  cases ho : normObs obs with
+  | error e =>
+    have := (normObs_error_iff obs).mp ⟨e, ho⟩
+    simp only [this, true_or, iff_true]
+    exact ⟨e, rfl⟩
+  | ok os =>
+    have hno : ¬ ∃ c rows, obs = .mat c rows ∧ rows.length ≠ 1 ∧ c ≠ 1 := by
+      intro h
+      obtain ⟨e, he⟩ := (normObs_error_iff obs).mpr h
+      rw [ho] at he; cases he
+    simp only [hno, false_or]
+    unfold checkEnsemble
+    by_cases h1 : (normEns ens).length ≠ os.length
+    · simp only [if_pos h1]
+      exact ⟨fun _ => ⟨os, rfl, Or.inl h1⟩, fun _ => ⟨_, rfl⟩⟩
+    · simp only [if_neg h1]
+      by_cases h2 : (keepRows os (normEns ens)).isEmpty
+      · simp only [if_pos h2]
+        exact ⟨fun _ => ⟨os, rfl, Or.inr (by simpa using h2)⟩, fun _ => ⟨_, rfl⟩⟩
+      · simp only [if_neg h2]
+        constructor
+        · rintro ⟨e, he⟩; cases he
+        · rintro ⟨os', hos', h⟩
+          injection hos' with hos'
+          subst hos'
+          rcases h with h | h
+          · exact absurd h h1
+          · rw [h] at h2; simp at h2
+
+/-- every PIT value `pit` returns lies in [0, 1]: every layout, every `kind`, both branches, NaN members included
+(`none` = the NaN `percentileofscore` propagates from a NaN member in the non-random branch) -/
+theorem pitEntry_range (random : Bool) (kind : PctKind) (eps cst censor : α) (obs ens : ArrIn (Option α))
+    (dobs : List α) (dens : List (List α)) (r : List (Option α × Bool))
+    (h : pitEntry random kind eps cst censor obs ens dobs dens = .ok r) :
+    ∀ q ∈ r, ∀ v, q.1 = some v → 0 ≤ v ∧ v ≤ 1 := by
+  unfold pitEntry at h
+  cases hk : checkEnsembleIn obs ens with
+  | error e => rw [hk] at h; cases h
+  | ok k =>
+    rw [hk] at h
+    injection h with h
+    rw [← h]
+    exact pitRows_range random kind eps cst censor k
+      (fun p hp => any_isSome_ne_nil p.2 (checkEnsembleIn_any obs ens k hk p hp)) dobs dens
+
+/-- the random branch never returns NaN -/
+theorem pitEntry_random_defined (kind : PctKind) (eps cst censor : α) (obs ens : ArrIn (Option α))
+    (dobs : List α) (dens : List (List α)) (r : List (Option α × Bool))
+    (h : pitEntry true kind eps cst censor obs ens dobs dens = .ok r) : ∀ q ∈ r, q.1.isSome = true := by
+  unfold pitEntry at h
+  cases hk : checkEnsembleIn obs ens with
+  | error e => rw [hk] at h; cases h
+  | ok k =>
+    rw [hk] at h
+    injection h with h
+    rw [← h]
+    exact pitRows_random_defined kind eps cst censor k dobs dens
+
+/-- on complete data (the property's quantifier: no NaN, `n ≥ 1` forecasts of `m ≥ 1` members) the entry point
+returns, forecast by forecast, `pitRandom` / `pitKind` and `isSudo` — the functions of clauses 6 to 8 -/
+theorem pitEntry_complete (random : Bool) (kind : PctKind) (eps cst censor : α) (os : List α) (c : ℕ)
+    (rows : List (List α)) (hlen : rows.length = os.length) (hos : os ≠ []) (hne : ∀ r ∈ rows, r ≠ [])
+    (dobs : List α) (dens : List (List α)) :
+    pitEntry random kind eps cst censor (.vec (os.map some)) (.mat c (rows.map fun r => r.map some)) dobs dens
+      = .ok (pitSpec random kind eps cst censor os rows dobs dens) := by
+  unfold pitEntry checkEnsembleIn
+  simp only [normObs, normEns]
+  rw [checkEnsemble_complete os rows hlen hos hne]
+  simp only [pitRows_complete]
+
+/-- the documented layouts of `obs` — [n], [n,1] — and a row [1,n] give the same answer -/
+theorem pitEntry_obs_layouts (random : Bool) (kind : PctKind) (eps cst censor : α) (l : List (Option α))
+    (ens : ArrIn (Option α)) (dobs : List α) (dens : List (List α)) :
+    pitEntry random kind eps cst censor (.mat 1 (l.map fun a => [a])) ens dobs dens
+        = pitEntry random kind eps cst censor (.vec l) ens dobs dens ∧
+      pitEntry random kind eps cst censor (.mat l.length [l]) ens dobs dens
+        = pitEntry random kind eps cst censor (.vec l) ens dobs dens := by
+  unfold pitEntry checkEnsembleIn
+  rw [normObs_col, normObs_row]
+  exact ⟨rfl, rfl⟩
+
+/-! ## 10. range clauses under rounding: every monotone rounding that is exact on small integers and half-integers -/
+
+/-- PIT of the random branch in [0, 1] with every arithmetic operation rounded (`cst ≥ 0`: the property's plotting
+constants; values above ½ are clamped) -/
+theorem pit_range_rounded (rnd : α → α) (nens : ℕ) (hr : RoundsCounts rnd nens) (cst : α) (hc0 : 0 ≤ cst)
+    (cnt : ℕ) (hcnt : cnt ≤ nens) :
+    0 ≤ pitFormulaR rnd (clampCst cst) cnt nens ∧ pitFormulaR rnd (clampCst cst) cnt nens ≤ 1 :=
+  pitFormulaR_range rnd nens hr cst hc0 cnt hcnt
+
+/-- … and it never decreases when one more member lies below the observation (strictness is the exact statement
+`pit_strictMono_count`; in double precision it holds as long as the step 1/(1 - cst + m) exceeds one ulp) -/
+theorem pit_mono_rounded (rnd : α → α) (nens : ℕ) (hr : RoundsCounts rnd nens) (cst : α) (hc0 : 0 ≤ cst)
+    (cnt cnt' : ℕ) (h : cnt ≤ cnt') (hcnt : cnt' ≤ nens) :
+    pitFormulaR rnd (clampCst cst) cnt nens ≤ pitFormulaR rnd (clampCst cst) cnt' nens :=
+  pitFormulaR_mono rnd nens hr cst hc0 cnt cnt' h hcnt
+
+/-- with `rnd = id` the rounded formulas are the model's -/
+theorem rounded_id (c eps censor obs : α) (cnt nens : ℕ) (ens : List α) :
+    pitFormulaR id c cnt nens = pitFormula c cnt nens ∧ isSudoR id eps censor obs ens = isSudo eps censor obs ens :=
+  ⟨rfl, rfl⟩
+
+/-- the pseudo-PIT flag IS raised when the observation and a member are at or below the threshold, whatever the
+rounding of `obs - censor`, `ens - censor` -/
+theorem sudo_rounded_at_or_below (rnd : α → α) (hm : Monotone rnd) (h0 : rnd 0 = 0) (eps censor obs : α)
+    (heps : 0 < eps) (ens : List α) (hobs : obs ≤ censor) (hens : ∃ a ∈ ens, a ≤ censor) :
+    isSudoR rnd eps censor obs ens = true :=
+  isSudoR_of_le rnd hm h0 eps censor obs heps ens hobs hens
+
+/-- … and is NOT raised when the observation, or every member, is at least EPS above it -/
+theorem sudo_rounded_above (rnd : α → α) (hm : Monotone rnd) (eps censor obs : α) (he : rnd eps = eps)
+    (ens : List α) (h : eps ≤ obs - censor ∨ ∀ a ∈ ens, eps ≤ a - censor) :
+    isSudoR rnd eps censor obs ens = false :=
+  isSudoR_of_above rnd hm eps censor obs he ens h
+
+/-- the score stays in [0, 1] under rounding whatever `np.corrcoef` computed before its clip -/
+theorem dscore_range_rounded (rnd : α → α) (hm : Monotone rnd) (h0 : rnd 0 = 0) (h1 : rnd 1 = 1) (h2 : rnd 2 = 2)
+    (r : α) : 0 ≤ dFinishR rnd r ∧ dFinishR rnd r ≤ 1 :=
+  dFinishR_range rnd hm h0 h1 h2 r
+
+/-! ## 11. hypotheses discharged from the kernel's own guards; hypotheses that are needed -/
+
+/-- whenever `c_ensrank` ACCEPTS a call (`epsmin` = 1e-20 > 0) on a rectangular array whose pairs are tied-or-separated
+and stably sorted, it returns Weigel and Mason's eq. 1 and 2: `0 < eps`, `epsmin ≤ eps`, `m ≥ 1`, `n ≥ 1` all follow
+from the acceptance -/
+theorem ensrank_ok_eq_weigel_mason (sort : List (α × ℕ) → List (α × ℕ)) (epsmin eps ceps : α) (h0 : 0 < epsmin)
+    (hc : 0 ≤ ceps) (m : ℕ) (rows : List (List α)) (hlen : ∀ e ∈ rows, e.length = m)
+    (hok : rows.Pairwise (PairOK sort eps ceps)) (r : List (List α) × List α)
+    (h : ensrank sort epsmin eps m rows = .ok r) : r = (upperF wmF rows, wmRanks rows) := by
+  obtain ⟨_, h1, h2, h3⟩ := ensrank_ok_inv sort epsmin eps m rows r h
+  have hmin : epsmin ≤ eps := not_lt.mp h1
+  have := ensrank_eq_weigel_mason sort epsmin eps ceps hmin (lt_of_lt_of_le h0 hmin) hc m (Nat.pos_of_ne_zero h2)
+    rows h3 hlen hok
+  rw [this] at h
+  injection h with h
+  exact h.symm
+
+/-- with NO hypothesis on ties, separation or the sort: whenever the kernel accepts, the ranks it returns sum to
+`n(n+1)/2` (every pair of forecasts shares exactly one unit) — this is what remains true of the excluded inputs and
+what the harness checks there -/
+theorem ensrank_ranks_sum (sort : List (α × ℕ) → List (α × ℕ)) (epsmin eps : α) (m : ℕ) (rows : List (List α))
+    (r : List (List α) × List α) (h : ensrank sort epsmin eps m rows = .ok r) :
+    r.2.sum = (rows.length : α) * ((rows.length : α) + 1) / 2 := by
+  obtain ⟨hr, _, _, _⟩ := ensrank_ok_inv sort epsmin eps m rows r h
+  rw [hr]
+  exact ranksOf_sum _ rows
+
+end field2
+
+/-- `Separated` is needed: two distinct values closer than the tolerance — correctly and stably sorted — are not
+compared as eq. 1 compares them (here the kernel's `F` even leaves [0, 1]: the member of the second ensemble opens no
+tie sequence and the member of the first one, within `eps` of it, does not either) -/
+theorem separation_needed :
+    ∃ (sort : List (ℚ × ℕ) → List (ℚ × ℕ)) (e1 e2 : List ℚ),
+      StableSortedBy (cmpTol (1 / 10 ^ 8 : ℚ)) (pool e1 e2) (sort (pool e1 e2)) ∧
+        ¬ Separated (1 / 10 ^ 6 : ℚ) (1 / 10 ^ 8) (e1 ++ e2) ∧ fpair sort (1 / 10 ^ 6) e1 e2 ≠ wmF e1 e2 := by
+  refine ⟨fun _ => [((0 : ℚ), 1), (1 / 10 ^ 7, 0)], [1 / 10 ^ 7], [0], ⟨?_, ?_⟩, ?_, ?_⟩
+  · unfold pool; decide +kernel
+  · unfold cmpTol; decide +kernel
+  · intro h
+    have := h (1 / 10 ^ 7) (by simp) 0 (by simp)
+    norm_num at this
+  · unfold wmF wm rowScore ps; decide +kernel
+
+/-- stability is needed: a sort that orders the pooled values correctly but puts the tied member of the SECOND
+ensemble first gives another `F` -/
+theorem stability_needed :
+    ∃ (sort : List (ℚ × ℕ) → List (ℚ × ℕ)) (e1 e2 : List ℚ),
+      (sort (pool e1 e2)).Perm (pool e1 e2) ∧ (sort (pool e1 e2)).Pairwise (fun x y => x.1 ≤ y.1) ∧
+        fpair sort (1 / 10 ^ 6) e1 e2 ≠ wmF e1 e2 := by
+  refine ⟨fun _ => [((1 : ℚ), 1), (1, 0)], [1], [1], ?_, ?_, ?_⟩
+  · unfold pool; decide +kernel
+  · simp
+  · unfold wmF wm rowScore ps; decide +kernel
+
 /-! ## 5. the discrimination score (ℝ) -/
 
 /-- `D` is the rank correlation of Weigel and Mason mapped to [0, 1]:
@@ -671,6 +924,243 @@ theorem ad_perm_invariant (sort : List (Option ℝ) → List (Option ℝ)) (hs :
   rw [ad_eq_textbook sort hs prev0 hprev xs s hx hperm hsorted,
     ad_eq_textbook sort hs prev0 hprev xs' s (fun v hv => hx v (h.mem_iff.mpr hv)) (hperm.trans h) hsorted]
 
+
+/-! ## 12. Anderson-Darling with the sort the model is run with: no sort hypothesis left -/
+
+theorem ad_sortADm_eq_textbook (prev0 : ℝ) (hprev : prev0 ≤ 0) (xs s : List ℝ) (hx : ∀ v ∈ xs, 0 < v ∧ v < 1)
+    (hperm : s.Perm xs) (hsorted : s.Pairwise (· ≤ ·)) :
+    adTest sortADm prev0 (xs.map some) = .ok (adTextbook s) :=
+  ad_eq_textbook sortADm sortADm_adSorts prev0 hprev xs s hx hperm hsorted
+
+theorem ad_sortADm_rejects_iff (prev0 : ℝ) (hprev : prev0 ≤ 0) (data : List (Option ℝ)) :
+    (∃ e, adTest sortADm prev0 data = .error e) ↔ ∃ x ∈ data, BadAD x :=
+  ad_rejects_iff sortADm sortADm_adSorts prev0 hprev data
+
+/-- with a correct sort the order check of `ADtest` never fires on NaN-free data: a rejection is a range rejection -/
+theorem ad_never_unsorted (sort : List (Option ℝ) → List (Option ℝ)) (hs : ADSorts sort) (prev0 : ℝ)
+    (hprev : prev0 ≤ 0) (xs : List ℝ) : adTest sort prev0 (xs.map some) ≠ .error .unsorted ∧
+      adTest sort prev0 (xs.map some) ≠ .error .nan := by
+  obtain ⟨s, hsort, hperm, hsorted⟩ := hs.2 xs
+  unfold adTest
+  simp only [hsort, allSome_map_some]
+  have key : ∀ (l : List ℝ) (p : ℝ), l.Pairwise (· ≤ ·) → (∀ v ∈ l, p ≤ v ∨ v < 0) →
+      adGuards p (l.map some) ≠ some .unsorted ∧ adGuards p (l.map some) ≠ some .nan := by
+    intro l
+    induction l with
+    | nil => intro p _ _; simp [adGuards]
+    | cons a t ih =>
+      intro p hp hb
+      simp only [List.map_cons, adGuards]
+      by_cases h1 : a < 0 ∨ 1 < a
+      · rw [if_pos h1]; simp
+      · rw [if_neg h1]
+        rw [not_or, not_lt, not_lt] at h1
+        have hpa : ¬ a < p := by
+          rcases hb a (by simp) with h | h
+          · exact not_lt.mpr h
+          · linarith [h1.1]
+        rw [if_neg hpa]
+        exact ih a (List.Pairwise.of_cons hp) (fun v hv => Or.inl (List.rel_of_pairwise_cons hp hv))
+  have hk := key s prev0 hsorted (fun v hv => by
+    by_cases h : v < 0
+    · exact Or.inr h
+    · exact Or.inl (le_trans hprev (not_lt.mp h)))
+  constructor
+  · cases hg : adGuards prev0 (s.map some) with
+    | none => simp
+    | some e => intro h; simp only at h; injection h with h; exact hk.1 (by rw [hg, h])
+  · cases hg : adGuards prev0 (s.map some) with
+    | none => simp
+    | some e => intro h; simp only at h; injection h with h; exact hk.2 (by rw [hg, h])
+
+/-! ## 13. the entry point `metrics.alpha` -/
+
+/-- `alpha` filters, then `pit` filters again: the second filter changes nothing (what the first kept, it keeps) -/
+theorem alpha_refilter (kind : PctKind) (eps cst censor : ℝ) (k : List (ℝ × List (Option ℝ)))
+    (hk : ∀ p ∈ k, p.2.any Option.isSome = true) (hne : k ≠ []) (c : ℕ) (dobs : List ℝ) (dens : List (List ℝ)) :
+    pitEntry true kind eps cst censor (.vec (keptObs k)) (.mat c (keptEns k)) dobs dens
+      = .ok (pitRows true kind eps cst censor k dobs dens) := by
+  unfold pitEntry checkEnsembleIn keptObs keptEns
+  simp only [normObs, normEns]
+  rw [checkEnsemble_idem k hk hne]
+
+/-- `alpha` with type CV or AD: whenever it returns, its p-value is defined and lies in [0, 1] (every layout, NaN rows,
+every jitter); with a correct sort the Anderson-Darling test never rejects alpha's own PIT series; a type other than
+CV / KS / AD is rejected after the data checks -/
+theorem alphaEntry_pvalue_range (sortA : List ℝ → List ℝ) (sortD : List (Option ℝ) → List (Option ℝ))
+    (ks : List ℝ → ℝ × ℝ) (typ : AlphaType) (htyp : typ ≠ .ks) (eps prev0 cst0 : ℝ) (obs ens : ArrIn (Option ℝ))
+    (dobs : List ℝ) (dens : List (List ℝ)) (s : ℝ) (p : Option ℝ) (flags : List Bool)
+    (h : alphaEntry sortA sortD ks typ eps prev0 cst0 obs ens dobs dens = .ok (s, p, flags)) :
+    ∃ v, p = some v ∧ 0 ≤ v ∧ v ≤ 1 := by
+  unfold alphaEntry at h
+  cases hk : checkEnsembleIn obs ens with
+  | error e => rw [hk] at h; cases h
+  | ok k =>
+    rw [hk] at h
+    simp only at h
+    split at h
+    · cases h
+    · rename_i r hr
+      cases typ with
+      | ks => exact absurd rfl htyp
+      | cv =>
+        simp only at h
+        injection h with h
+        injection h with h1 h2
+        injection h2 with h2 h3
+        obtain ⟨v, hv⟩ := cvm_pvalue_defined (α := ℝ) (r.filterMap Prod.fst).length
+          (cvmStat sortA (r.filterMap Prod.fst))
+        rw [hv] at h2
+        exact ⟨v, h2.symm, cvm_pvalue_range _ _ v hv⟩
+      | ad =>
+        simp only at h
+        split at h
+        · injection h with h
+          injection h with h1 h2
+          injection h2 with h2 h3
+          exact ⟨_, h2.symm, ad_pvalue_range _ _⟩
+        · cases h
+      | other => cases h
+
+theorem alphaEntry_ad_accepts (sortA : List ℝ → List ℝ) (sortD : List (Option ℝ) → List (Option ℝ))
+    (hs : ADSorts sortD) (ks : List ℝ → ℝ × ℝ) (eps prev0 cst0 : ℝ) (hprev : prev0 ≤ 0) (hc : cst0 < 1 / 2)
+    (obs ens : ArrIn (Option ℝ)) (dobs : List ℝ) (dens : List (List ℝ)) (e : ADErr) :
+    alphaEntry sortA sortD ks .ad eps prev0 cst0 obs ens dobs dens ≠ .error (.adTest e) := by
+  unfold alphaEntry
+  cases hk : checkEnsembleIn obs ens with
+  | error e' => simp
+  | ok k =>
+    simp only
+    have hany := checkEnsembleIn_any obs ens k hk
+    have hne : k ≠ [] := by
+      unfold checkEnsembleIn at hk
+      split at hk
+      · cases hk
+      · obtain ⟨_, h, _⟩ := checkEnsemble_spec _ _ k hk
+        exact h
+    rw [alpha_refilter .rank eps cst0 0 k hany hne]
+    simp only
+    have hopen := pitRows_random_open .rank eps cst0 0 hc k dobs dens
+    set pits := (pitRows true .rank eps cst0 0 k dobs dens).filterMap Prod.fst with hp
+    cases hres : adTest sortD prev0 (pits.map some) with
+    | ok s => simp
+    | error e' =>
+      exfalso
+      obtain ⟨x, hx, hb⟩ := (ad_rejects_iff sortD hs prev0 hprev (pits.map some)).mp ⟨e', hres⟩
+      obtain ⟨v, hv, rfl⟩ := List.mem_map.mp hx
+      have := hopen v hv
+      rcases hb with hb | hb <;> linarith [this.1, this.2]
+
+theorem alphaEntry_badType (sortA : List ℝ → List ℝ) (sortD : List (Option ℝ) → List (Option ℝ))
+    (ks : List ℝ → ℝ × ℝ) (eps prev0 cst0 : ℝ) (obs ens : ArrIn (Option ℝ)) (dobs : List ℝ) (dens : List (List ℝ))
+    (k : List (ℝ × List (Option ℝ))) (hk : checkEnsembleIn obs ens = .ok k) :
+    alphaEntry sortA sortD ks .other eps prev0 cst0 obs ens dobs dens = .error .badType := by
+  have hany := checkEnsembleIn_any obs ens k hk
+  have hne : k ≠ [] := by
+    unfold checkEnsembleIn at hk
+    split at hk
+    · cases hk
+    · obtain ⟨_, h, _⟩ := checkEnsemble_spec _ _ k hk
+      exact h
+  unfold alphaEntry
+  rw [hk]
+  simp only
+  rw [alpha_refilter .rank eps cst0 0 k hany hne]
+
+/-! ## 14. the entry point `metrics.dscore` -/
+
+/-- whenever `dscore` returns a number it lies in [0, 1] — for every layout of `sim` -/
+theorem dscoreEntry_range (sort : List (ℝ × ℕ) → List (ℝ × ℕ)) (epsmin eps : ℝ) (obs : List ℝ) (sim : SimIn ℝ)
+    (D : ℝ) (h : dscoreEntry sort epsmin eps obs sim = .ok (some D)) : 0 ≤ D ∧ D ≤ 1 := by
+  unfold dscoreEntry at h
+  simp only at h
+  split at h
+  · cases h
+  · injection h with h
+    exact dscore_range sort epsmin eps _ obs _ D h
+
+/-- it raises exactly when the number of observations differs from the number of forecasts -/
+theorem dscoreEntry_rejects_iff (sort : List (ℝ × ℕ) → List (ℝ × ℕ)) (epsmin eps : ℝ) (obs : List ℝ) (sim : SimIn ℝ) :
+    (∃ e, dscoreEntry sort epsmin eps obs sim = .error e) ↔ obs.length ≠ (simRows sim).2.length := by
+  unfold dscoreEntry
+  simp only
+  split
+  · rename_i h; exact ⟨fun _ => h, fun _ => ⟨_, rfl⟩⟩
+  · rename_i h; exact ⟨fun ⟨e, he⟩ => (by cases he), fun h' => absurd h' h⟩
+
+/-- single-member forecasts given as a vector [n] are scored as the column [n,1]: one forecast per value, ranked by
+their mid-ranks (= Weigel–Mason ranks, `franks_eq_weigel_mason`), NOT as one forecast of `n` members -/
+theorem dscoreEntry_vec (sort : List (ℝ × ℕ) → List (ℝ × ℕ)) (epsmin eps : ℝ) (obs l : List ℝ)
+    (hlen : obs.length = l.length) :
+    dscoreEntry sort epsmin eps obs (.vec l) = dscoreEntry sort epsmin eps obs (.mat 1 (l.map fun a => [a])) ∧
+      dscoreEntry sort epsmin eps obs (.vec l)
+        = .ok (dscoreOf ((stableRanks obs).map fun (r : ℕ) => (Nat.cast r : ℝ)) (midRanks l)) := by
+  refine ⟨rfl, ?_⟩
+  unfold dscoreEntry
+  simp only [simRows, List.length_map]
+  rw [if_neg (by simpa using hlen)]
+  unfold dscore dscoreWith franksOf
+  rw [if_pos rfl, flatten_singletons]
+
+/-- the range clause does not depend on how `np.argsort` ranks (tied) observations: whatever rank vector stands for
+`np.argsort(np.argsort(obs))`, the score is NaN or in [0, 1] -/
+theorem dscore_range_any_argsort (sort : List (ℝ × ℕ) → List (ℝ × ℕ)) (epsmin eps : ℝ) (m : ℕ) (oranks : List ℕ)
+    (rows : List (List ℝ)) (D : ℝ) (h : dscoreWith sort epsmin eps m oranks rows = some D) : 0 ≤ D ∧ D ≤ 1 :=
+  dscoreOf_range _ _ D h
+
+/-- "same number of ties" in `pitRank_strictMono_count` / `pitKind_strictMono_count` is needed: with 3 members tied
+with the observation and none below, the rank PIT is above the PIT of one member below and no tie -/
+theorem pit_ties_needed : pitRankFormula (α := ℚ) 1 1 4 < pitRankFormula (α := ℚ) 0 3 4 := by
+  unfold pitRankFormula; norm_num
+
+/-- `dscoreOf` is `dFinishR id` of the (clipped) correlation: the rounded range theorem is about the code's last step -/
+theorem dscoreOf_through_finish (x y : List ℝ) : dscoreOfFin x y = dscoreOf x y := dscoreOfFin_eq x y
+
+/-! ## 15. `ensrank` on caller-owned buffers: histories -/
+
+/-- one call: with buffers of the right shape the answer read back (return code, upper triangle of `fmat`, `ranks`)
+is the answer on fresh buffers, and the buffers keep their shape; with buffers of another shape the wrapper's
+assertion fires; a rejected call (assertion or return code) leaves the buffers untouched -/
+theorem ensrank_step (sort : List (ℝ × ℕ) → List (ℝ × ℕ)) (epsmin eps : ℝ) (ncol : ℕ) (rows : List (List ℝ))
+    (b : Bufs ℝ) :
+    (shapesOK b rows.length = true →
+        (bufStep sort epsmin b (.call eps ncol rows)).2 = callReply sort epsmin eps ncol rows ∧
+          shapesOK (bufStep sort epsmin b (.call eps ncol rows)).1 rows.length = true) ∧
+      (shapesOK b rows.length = false → bufStep sort epsmin b (.call eps ncol rows) = (b, .assertion)) ∧
+      (∀ e, (bufStep sort epsmin b (.call eps ncol rows)).2 = .code e →
+        (bufStep sort epsmin b (.call eps ncol rows)).1 = b) := by
+  refine ⟨bufStep_call sort epsmin eps ncol rows b, ?_, ?_⟩
+  · intro h; simp [bufStep, h]
+  · intro e he
+    by_cases hs : shapesOK b rows.length = true
+    · cases hr : ensrank sort epsmin eps ncol rows with
+      | error e' => simp [bufStep, hs, hr]
+      | ok r => simp [bufStep, hs, hr] at he
+    · simp [bufStep, hs] at he
+
+/-- a whole history over `n` forecasts — calls (accepted or rejected by the kernel) and the caller scribbling into its
+buffers, in any order and number: every reply is the reply on fresh buffers. Nothing leaks from one call to the next -/
+theorem ensrank_history_free (sort : List (ℝ × ℕ) → List (ℝ × ℕ)) (epsmin : ℝ) (n : ℕ) (ops : List (BufOp ℝ)) :
+    ∀ b : Bufs ℝ, shapesOK b n = true → (∀ op ∈ ops, OpShape n op) →
+      (bufRun sort epsmin b ops).2 = ops.map (replyOf sort epsmin) := by
+  induction ops with
+  | nil => intro b _ _; rfl
+  | cons op rest ih =>
+    intro b hb hops
+    have hop := hops op (by simp)
+    simp only [bufRun, List.map_cons]
+    cases op with
+    | scribble f r =>
+      have : shapesOK (⟨f, r⟩ : Bufs ℝ) n = true := hop
+      rw [ih _ (by simpa [bufStep] using this) (fun o ho => hops o (by simp [ho]))]
+      rfl
+    | call eps ncol rows =>
+      have hn : rows.length = n := hop
+      subst hn
+      obtain ⟨h1, h2⟩ := bufStep_call sort epsmin eps ncol rows b hb
+      rw [ih _ h2 (fun o ho => hops o (by simp [ho])), h1]
+      rfl
+
 /-! ## non-vacuity of the hypotheses -/
 
 /-- a pooled pair with a tie across the two ensembles, stably sorted: `PairOK` holds -/
@@ -738,5 +1228,59 @@ example : ADSorts fun data : List (Option ℚ) =>
   · intro xs
     refine ⟨xs.mergeSort fun a b => decide (a ≤ b), ?_, List.mergeSort_perm xs _, hsorted xs⟩
     simp [allSome_map_some]
+
+/-- a rounding that is NOT the identity (round down to a multiple of 2⁻¹⁰) meets `RoundsCounts` -/
+example : RoundsCounts (fun x : ℚ => (⌊x * 1024⌋ : ℚ) / 1024) 7 ∧ (⌊(1 / 3 : ℚ) * 1024⌋ : ℚ) / 1024 ≠ 1 / 3 := by
+  refine ⟨⟨?_, ?_, ?_⟩, ?_⟩
+  · intro a b hab
+    dsimp only
+    apply div_le_div_of_nonneg_right _ (by norm_num)
+    exact_mod_cast Int.floor_mono (by linarith)
+  · intro k _
+    have : (k : ℚ) * 1024 = ((k * 1024 : ℤ) : ℚ) := by push_cast; ring
+    rw [this, Int.floor_intCast]; push_cast; field_simp
+  · intro k _
+    have : ((k : ℚ) + 1 / 2) * 1024 = ((k * 1024 + 512 : ℤ) : ℚ) := by push_cast; ring
+    rw [this, Int.floor_intCast]; push_cast; field_simp; ring
+  · have : ⌊(1 / 3 : ℚ) * 1024⌋ = 341 := by
+      rw [Int.floor_eq_iff]; constructor <;> norm_num
+    rw [this]; norm_num
+
+/-- `pit` on data with a missing observation and a NaN member: the forecast without observation is dropped, the NaN
+member is counted in the ensemble size but not below the observation, and is not censored -/
+example : (pitEntry (α := ℚ) true .rank (1 / 10 ^ 10) (3 / 10) 0 (.vec [some 2, none, some 0])
+      (.mat 2 [[some 1, none], [some 1, some 1], [some 0, some 3]]) [0, 0] [[0, 0], [0, 0]]).toOption
+    = some [(some (4 / 9), false), (some (2 / 27), true)] := by
+  decide +kernel
+
+/-- … and a [n,1] observation array gives the same as the vector; a [2,2] one is rejected -/
+example : pitEntry (α := ℚ) false .mean (1 / 10 ^ 10) (3 / 10) 0 (.mat 2 [[some 1, some 2], [some 3, some 4]])
+      (.mat 2 [[some 1, some 1], [some 1, some 1]]) [] [] = .error .obsNotOneD := by
+  decide +kernel
+
+/-- a history on two single-member forecasts: an accepted call, a call the kernel rejects (eps = 0), the caller
+scribbling over both buffers, another accepted call — hypotheses of `ensrank_history_free` -/
+example : shapesOK (⟨[[0, 0], [0, 0]], [0, 0]⟩ : Bufs ℚ) 2 = true ∧
+    ∀ op ∈ [BufOp.call (1 / 10 ^ 6 : ℚ) 1 [[1], [2]], .call 0 1 [[1], [2]], .scribble [[7, 7], [7, 7]] [3, 3],
+      .call (1 / 10 ^ 6) 1 [[2], [1]]], OpShape 2 op := by
+  refine ⟨by decide +kernel, ?_⟩
+  intro op hop
+  simp only [List.mem_cons, List.not_mem_nil, or_false] at hop
+  rcases hop with rfl | rfl | rfl | rfl <;> simp [OpShape, shapesOK]
+
+/-- … and what the run returns on it (identity sort: the pooled pairs are already in order) -/
+example : (bufRun (fun l => l) (1 / 10 ^ 20 : ℚ) ⟨[[0, 0], [0, 0]], [0, 0]⟩
+      [BufOp.call (1 / 10 ^ 6 : ℚ) 1 [[1], [2]], .call 0 1 [[1], [2]], .scribble [[7, 7], [7, 7]] [3, 3]]).1.ranks
+    = [3, 3] ∧
+    (bufRun (fun l => l) (1 / 10 ^ 20 : ℚ) ⟨[[0, 0], [0, 0]], [0, 0]⟩
+      [BufOp.call (1 / 10 ^ 6 : ℚ) 1 [[1], [2]], .call 0 1 [[1], [2]]]).1.ranks = [1, 2] := by
+  decide +kernel
+
+/-- single-member forecasts as a vector: accepted when there are as many observations -/
+example : (simRows (.vec [(1 : ℚ), 2, 2, 4])).2.length = [(1 : ℚ), 2, 3, 4].length := by decide
+
+/-- a pseudo-PIT configuration at the threshold (hypotheses of `sudo_rounded_at_or_below`) and one above it -/
+example : (2 : ℚ) ≤ 2 ∧ (∃ a ∈ [(3 : ℚ), 1], a ≤ 2) ∧ ((1 / 10 ^ 10 : ℚ) ≤ 5 - 2 ∨ ∀ a ∈ [(3 : ℚ), 1], 1 / 10 ^ 10 ≤ a - 2) := by
+  decide +kernel
 
 end HydroVerif.C10
